@@ -86,8 +86,20 @@ theorem refSkipWhile_natural (ρ : α → α') (p : α → Except Err Bool) (p' 
       · simp only [Bool.false_eq_true, if_false]; rw [← List.map_cons, mapN_outSeq]
       · simp [ih]
 
+theorem anyMatch_natural (τ : κ → κ') (cmp : κ → κ → Except Err Bool) (cmp' : κ' → κ' → Except Err Bool)
+    (hc : ∀ a b, cmp' (τ a) (τ b) = cmp a b) (k : κ) (seen : List κ) :
+    anyMatch cmp' (τ k) (seen.map τ) = anyMatch cmp k seen := by
+  induction seen with
+  | nil => rfl
+  | cons a rest ih =>
+    simp only [List.map_cons, anyMatch, hc]
+    cases cmp a k with
+    | error er => rfl
+    | ok b => cases b <;> simp [ih]
+
 theorem refDistinct_natural (ρ : α → α') (τ : κ → κ') (key : α → Except Err κ) (key' : α' → Except Err κ')
-    (cmp : κ → κ → Bool) (cmp' : κ' → κ' → Bool) (hk : ∀ x, key' (ρ x) = (key x).map τ) (hc : ∀ a b, cmp' (τ a) (τ b) = cmp a b)
+    (cmp : κ → κ → Except Err Bool) (cmp' : κ' → κ' → Except Err Bool)
+    (hk : ∀ x, key' (ρ x) = (key x).map τ) (hc : ∀ a b, cmp' (τ a) (τ b) = cmp a b)
     (seen : List κ) (xs : List α) (e : End) :
     refDistinct key' cmp' (seen.map τ) (xs.map ρ) e = mapN ρ (refDistinct key cmp seen xs e) := by
   induction xs generalizing seen with
@@ -97,14 +109,15 @@ theorem refDistinct_natural (ρ : α → α') (τ : κ → κ') (key : α → Ex
     cases key x with
     | error er => rfl
     | ok k =>
-      have hany : ((seen.map τ).any fun a => cmp' a (τ k)) = seen.any (fun a => cmp a k) := by
-        simp [List.any_map, Function.comp_def, hc]
-      simp only [Except.map, hany]
-      cases seen.any (fun a => cmp a k)
-      · have := ih (seen ++ [k])
-        simp only [List.map_append, List.map_cons, List.map_nil] at this
-        simp [this, mapN_cons_next]
-      · simp [ih]
+      simp only [Except.map, anyMatch_natural τ cmp cmp' hc]
+      cases anyMatch cmp k seen with
+      | error er => rfl
+      | ok b =>
+        cases b
+        · have := ih (seen ++ [k])
+          simp only [List.map_append, List.map_cons, List.map_nil] at this
+          simp [this, mapN_cons_next]
+        · simp [ih]
 
 theorem refDUC_natural (ρ : α → α') (τ : κ → κ') (key : α → Except Err κ) (key' : α' → Except Err κ')
     (cmp : κ → κ → Except Err Bool) (cmp' : κ' → κ' → Except Err Bool) (hk : ∀ x, key' (ρ x) = (key x).map τ)
